@@ -965,6 +965,8 @@ def gen_seq(rng, kts=("k256", "libsecp", "ed", "comb"), seqs=None, calls_per=Non
                     args["pk_of"] = own
                 steps.append({"op": "decode", "h": "r", "kt": kt, "input": {"rec": {"seq": seq, "pairs": pairs, "sig": {"by": own}}}, "tag": "seq_init"})
                 steps.append({"op": "call", "h": "r", "m": m, "args": args, "signer": own})
+                # the identical call once more: nothing changes but it is a complete update (+1, or overflow)
+                steps.append({"op": "call", "h": "r", "m": m, "args": args, "signer": own})
             # public-key changes to every other key the key type knows (CombinedKey: also the other scheme)
             for other in [x for x in signers_for(kt) if x != own]:
                 steps.append({"op": "decode", "h": "r", "kt": kt, "input": {"rec": {"seq": seq, "pairs": pairs, "sig": {"by": own}}}, "tag": "seq_init"})
@@ -1088,11 +1090,24 @@ def gen_typed(rng, ports, routes=("builder", "setter", "socket", "decode"), keys
     # addresses, client strings, arbitrary raw values under client / custom keys
     steps = [{"op": "build", "h": "r", "kt": kt, "signer": own, "calls": []}]
     ips = [[0, 0, 0, 0], [255] * 4, [127, 0, 0, 1], [0] * 16, [255] * 16, [0] * 15 + [1], [0x20, 1, 0xd, 0xb8] + [0] * 12]
+    v4 = [192, 0, 2, 7]
+    ips += [[0] * 10 + [255, 255] + v4, [0] * 12 + v4, [0, 0x64, 0xff, 0x9b] + [0] * 8 + v4, [0] * 10 + [255, 255, 0, 0, 0, 0],
+            [0xfe, 0x80] + [0] * 13 + [1], [0xff, 2] + [0] * 13 + [1], [0, 0, 0, 1], [0, 1, 2, 3], [0, 0, 0, 0], [224, 0, 0, 1]]
     for _ in range(extra):
         ips.append(rand_ip(rng, rng.choice([4, 16])))
     for ip in ips:
         steps.append({"op": "call", "h": "r", "m": "set_ip", "args": {"ip": ip}, "signer": own, "obs": "typed"})
         steps.append({"op": "call", "h": "r", "m": rng.choice(["set_udp_socket", "set_tcp_socket"]), "args": {"ip": rand_ip(rng, len(ip)), "port": rng.randrange(65536)}, "signer": own, "obs": "typed"})
+    # client values of every arity, with non-UTF-8 strings, nested lists, and the list wrapped in a string
+    det_clients = [enc_list([enc_str(B("s%d" % j)) for j in range(ar)]) for ar in range(0, 7)]
+    det_clients += [enc_list([enc_str([0x47, 0xe9]), enc_str(B("1"))]), enc_list([enc_str(B("n")), enc_str([0xff, 0xfe]), enc_str([0xde, 0xad])]),
+                    enc_str(enc_list([enc_str(B("n")), enc_str(B("v"))])), enc_list([enc_list([enc_str(B("n"))]), enc_str(B("v"))]),
+                    enc_str(B("geth/1.0")), enc_list([enc_str([]), enc_str([])])]
+    for raw in det_clients:
+        steps.append({"op": "call", "h": "r", "m": "insert_raw_rlp", "args": {"key": B("client"), "raw": raw}, "signer": own, "obs": "full"})
+    # strings whose payload is itself an encoding, under custom keys (generic getters must treat them as opaque strings)
+    for raw in [enc_str(enc_uint(8080)), enc_str(enc_str([1, 2, 3, 4, 5, 6, 7, 8])), enc_str(enc_list([enc_str(B("a"))])), enc_str(enc_str(rand_bytes(rng, 4)))]:
+        steps.append({"op": "call", "h": "r", "m": "insert_raw_rlp", "args": {"key": B("wrapped"), "raw": raw}, "signer": own, "obs": "full"})
     for _ in range(extra):
         nm = "".join(rng.choice("abcXYZ019-._ /é") for _ in range(rng.randrange(0, 12)))
         steps.append({"op": "call", "h": "r", "m": "set_client_info", "signer": own, "obs": "full",
